@@ -186,6 +186,9 @@ def recheck(names):
         if not os.path.exists(os.path.join(d, "meta.json")):
             continue
         meta = json.load(open(os.path.join(d, "meta.json")))
+        # SEEDTEST_SINCE=<epoch>: changes rechecked after that moment are skipped (a recheck that was interrupted goes on)
+        if os.environ.get("SEEDTEST_SINCE") and meta.get("rechecked_ts", 0) > float(os.environ["SEEDTEST_SINCE"]):
+            continue
         wt = "/tmp/seedchk/rc-" + name
         sh("git -C /repo worktree remove --force %s" % wt)
         shutil.rmtree(wt, ignore_errors=True)
@@ -213,9 +216,17 @@ def recheck(names):
             rc_c, _ = go_test_demo(wt, target, tags)
             os.remove(os.path.join(wt, target))
             sh("rm -rf %s/*/data %s/data %s/cmd/*/data" % (wt, wt, wt))
-            checks = sorted(set([meta["property"]] + list((meta.get("checks") or {}).keys())))
-            res = run_checks(wt, checks)
+            # the check of the change's own property first; the other checks that were run against it before are only
+            # run again when that one does not see the change (SEEDTEST_ALL=1: always)
+            res = run_checks(wt, [meta["property"]])
+            others = sorted(set((meta.get("checks") or {}).keys()) - {meta["property"]})
+            if others and (res[meta["property"]]["exit"] != 1 or os.environ.get("SEEDTEST_ALL")):
+                res.update(run_checks(wt, others))
+            else:
+                for c in others:
+                    res[c] = dict(meta["checks"][c], not_rerun=True)
             meta["checks"] = res
+            meta["rechecked_ts"] = time.time()
             meta["detected_by"] = [c for c, v in res.items() if v["exit"] == 1]
             meta["rechecked_at_repo"] = sh("git -C /repo rev-parse --short HEAD")[1].strip()
             meta["recheck"] = dict(patch=applied, changed_tree_existing_suite="PASS" if rc_b == 0 else "FAIL", changed_tree_demo="FAIL" if rc_c else "PASS")
